@@ -142,6 +142,7 @@ class Path(object):
         self.guards = []
         self.outcome = None
         self.end = None
+        self.store = None
 
 
 class Interp(object):
@@ -181,6 +182,8 @@ class Interp(object):
                 self.path.outcome = ('THROW', t.t)
                 self.path.actions.append(('THROW', t.t))
             self.path.end = self.off
+            self.path.store = self.store
+            self.path.facts = getattr(self, 'facts', None)
             results.append(self.path)
             for alt in self.new_choices:
                 work.append(alt)
@@ -735,7 +738,7 @@ class Interp(object):
             return int_conv(v + delta, t)
         if isinstance(delta, Pos):
             return self.add(delta, v, t)
-        if isinstance(v, Sym):
+        if v is not TOP and v is not None:
             return self.model.arith(self, None, None, '+', v, delta)
         return TOP
 
